@@ -59,17 +59,17 @@ type extFile struct {
 
 // source is one snapshot on the sender's disk together with its chunks.
 type source struct {
-	id                        int
-	shard, replica, from      uint64
-	index, term, onDiskIndex  uint64
-	membership                pb.Membership
-	mainPath                  string
-	mainData                  []byte
-	ext                       []extFile
-	chunks                    []pb.Chunk
-	nameVariant               int
-	mainName                  string // name the main file is expected to be stored under
-	degenerate                bool   // the announced file name is not a file name at all (".", "..", "/")
+	id                         int
+	shard, replica, from       uint64
+	index, term, onDiskIndex   uint64
+	membership                 pb.Membership
+	mainPath                   string
+	mainData                   []byte
+	ext                        []extFile
+	chunks                     []pb.Chunk
+	nameVariant                int
+	mainName                   string // name the main file is expected to be stored under
+	degenerate                 bool   // the announced file name is not a file name at all (".", "..", "/")
 	extDirVariant, infoVariant int
 }
 
